@@ -310,6 +310,20 @@ def calls_reaching(prog, b, target_names, arg_check=None):
     return out
 
 
+def residual_origin(b, t):
+    """for a `?` error exit (from_residual call): the leaves of the Result that was branched on"""
+    out = []
+    for l in C.trace(b, t["args"][0]):
+        if l.kind == "errpayload":
+            base = l.data["l"]
+            for rec in b.defs().get(base, []):
+                if rec[0] == "call" and C.is_try_branch(rec[2]):
+                    out += C.trace(b, rec[2]["args"][0], through_decorators=True)
+        else:
+            out.append(l)
+    return out
+
+
 def out_edges(b, blocks):
     cut = set()
     for bb in blocks:
